@@ -190,11 +190,28 @@ def flakeKb : Op := fun j => do
   let xi : List F ← nums j "xi"
   return Json.mkObj [("kb", encNums (xi.map (kbOf a c)))]
 
+def encConsts (c : Consts F) : Json := Json.mkObj [
+  ("solid_fraction", Wire.enc c.solid_fraction), ("cp_s", Wire.enc c.cp_s), ("cp_w", Wire.enc c.cp_w),
+  ("cp_i", Wire.enc c.cp_i), ("cp_solution", Wire.enc c.cp_solution), ("depression", Wire.enc c.depression),
+  ("mass", Wire.enc c.mass), ("alpha", Wire.enc c.alpha), ("beta_solution", Wire.enc c.beta_solution),
+  ("T_eq", Wire.enc c.T_eq), ("T_eq_l", Wire.enc c.T_eq_l), ("hl", Wire.enc c.hl), ("b", Wire.enc c.b),
+  ("V", Wire.enc c.V)]
+
+/-- `flakeDerive`: derived constants from the primary YAML values -/
+def flakeDerive : Op := fun j => do
+  let y : Primary F := {
+    T_eq := ← num j "T_eq", b := ← num j "b", rho_l := ← num j "rho_l", height := ← num j "height",
+    length := ← num j "length", width := ← num j "width", cp_s := ← num j "cp_s",
+    solid_fraction := ← num j "solid_fraction", cp_w := ← num j "cp_w", cp_i := ← num j "cp_i",
+    k_f := ← num j "k_f", M_s := ← num j "M_s", Dh := ← num j "Dh" }
+  return Json.mkObj [("consts", encConsts (deriveConsts y))]
+
 end Snow.Ops.FlakeOps
 
 namespace Snow.Ops
 def flakeOps : List (String × Op) := [
   ("flakeRun", FlakeOps.flakeRun),
   ("flakeStep", FlakeOps.flakeStep),
-  ("flakeKb", FlakeOps.flakeKb)]
+  ("flakeKb", FlakeOps.flakeKb),
+  ("flakeDerive", FlakeOps.flakeDerive)]
 end Snow.Ops
